@@ -251,4 +251,278 @@ Proof.
   rewrite Forall_forall in H. specialize (H g0 In). cbn [fseg_of fg_abs]. lia.
 Qed.
 
+
+(* ================================================================== 3. the invariants of one poll *)
+(* an invariant closed under the three relations, kept by the receive loop and the segmentation *)
+Theorem poll_inv_gen : forall (P : vsock -> Prop),
+  (forall a b, keep a b -> P a -> P b) ->
+  (forall a b, stx a b -> P a -> P b) ->
+  (forall s, P s -> stA P (process_all_incoming_messages cci s)) ->
+  (forall s, P s -> Bx s -> stA P (split_tx_queue_into_segments cci s)) ->
+  forall s s' r, P (poll_init s) -> poll cci s = (s', r) ->
+  P s' /\ (r = PollPending -> exists s0, P s0 /\ poll_body cci s0 = BrReturn s' PollPending).
+Proof.
+  intros P Hk Hs Hp Hsp s s' r P0 E.
+  assert (Hkr : forall a b, keepr a b -> P a -> P b) by (intros a b K; apply Hs, keepr_stx; exact K).
+  assert (G : forall Q : Prop,
+    ((forall s, P s -> P (poll_start s)) ->
+     (forall s, P s -> stA P (maybe_send_syn_ack s)) ->
+     (forall s, P s -> stA P (send_ack s)) ->
+     (forall s, P s -> stA P (process_all_incoming_messages cci s)) ->
+     (forall s s' u, P s -> process_all_incoming_messages cci s = SOk s' u -> v_transport_pending s' = false -> Bx s') ->
+     (forall s rx1 w, P s -> P (add_wakes (set_rx s rx1) (rx_wakes w))) ->
+     (forall s rx1 w, Bx s -> Bx (add_wakes (set_rx s rx1) (rx_wakes w))) ->
+     (forall s, P s -> Bx s -> stA P (split_tx_queue_into_segments cci s)) ->
+     (forall s, P s -> stA P (send_tx_queue cci s)) ->
+     (forall s, P s -> P (transition_to_fin_wait_1 s)) ->
+     (forall s, P s -> stA P (maybe_send_fin s)) ->
+     (forall s, P s -> stA P (maybe_send_ack s)) ->
+     (forall s e, P s -> P (just_before_death s e)) ->
+     (forall s, P s -> P (poll_tail s)) -> Q) -> Q).
+  { intros Q HQ. apply HQ.
+    - intros s0 H0. eapply Hk; [apply poll_start_keep | exact H0].
+    - intros s0 H0. eapply (stR_inv keepr); [exact Hkr | apply maybe_send_syn_ack_keepr | exact H0].
+    - intros s0 H0. eapply (stR_inv keepr); [exact Hkr | apply send_ack_keepr | exact H0].
+    - exact Hp.
+    - intros s0 s1 u _. apply pim_Bx.
+    - intros s0 rx1 w H0. eapply Hkr; [apply (rx_flush_keepr s0 rx1 (rx_wakes w)) | exact H0].
+    - intros s0 rx1 w H0. exact H0.
+    - exact Hsp.
+    - intros s0 H0. eapply (stR_inv stx); [exact Hs | apply send_tx_queue_stx | exact H0].
+    - intros s0 H0. eapply Hkr; [apply transition_to_fin_wait_1_keepr | exact H0].
+    - intros s0 H0. eapply (stR_inv keepr); [exact Hkr | apply maybe_send_fin_keepr | exact H0].
+    - intros s0 H0. eapply (stR_inv keepr); [exact Hkr | apply maybe_send_ack_keepr | exact H0].
+    - intros s0 e H0. eapply Hkr; [apply just_before_death_keepr | exact H0].
+    - intros s0 H0. eapply Hkr; [apply poll_tail_keepr | exact H0]. }
+  apply G. intros G1 G2 G3 G4 G5 G6 G7 G8 G9 G10 G11 G12 G13 G14. split.
+  - apply (poll_A P Bx G1 G2 G3 G4 G5 G6 G7 G8 G9 G10 G11 G12 G13 G14 s s' r P0 E).
+  - intros ->. apply (poll_last P Bx G1 G2 G3 G4 G5 G6 G7 G8 G9 G10 G11 G12 G13 G14 s s' P0 E).
+Qed.
+
+Section Core.
+Variables (off0 m0 : Z).
+
+Definition CoreT (s : vsock) : Prop :=
+  1 <= mss (v_ss s) /\ Tab off0 (v_segs s) /\ (off0 < ss_offset (v_segs s) -> v_inbox s = []).
+
+Definition CoreW (s : vsock) : Prop :=
+  m0 <= mss (v_ss s) /\ o_nagle (v_opts s) = true /\
+  c18_walk off0 m0 (v_last_remote_window s) false (map fseg_of (ss_segs (v_segs s))) = true.
+
+Definition Core1 (s : vsock) : Prop := CoreT s /\ CoreW s.
+
+(* ---- CoreT ---- *)
+Lemma CoreT_keep : forall a b, keep a b -> CoreT a -> CoreT b.
+Proof. intros a b ((_ & I & _) & E1 & E2) H. unfold CoreT. rewrite E1, E2, I. exact H. Qed.
+
+Lemma CoreT_kfl : forall a b, kfl a b -> CoreT a -> CoreT b.
+Proof.
+  intros a b ((_ & I & _) & E1 & T) (M & Tb & Ib). pose proof T as (_ & O & _).
+  split; [rewrite E1; exact M|]. split; [eapply Tab_tfl; [apply tfl_eq_le; exact T | exact Tb]|].
+  rewrite O, I. exact Ib.
+Qed.
+
+Lemma CoreT_stx : forall a b, stx a b -> CoreT a -> CoreT b.
+Proof.
+  intros a b H. induction H as [s|a b c _ IH1 _ IH2|s s' K R|s s' K M R P]; auto.
+  - apply CoreT_kfl; exact K.
+  - intros (M0 & Tb & Ib). destruct K as (_ & I & _).
+    split; [lia|]. split; [apply (Tab_tpop off0 _ _ P Tb)|].
+    pose proof (tpop_offset_lt off0 _ _ P Tb). intro L. rewrite I. apply Ib. lia.
+Qed.
+
+Lemma CoreT_offset : forall s, CoreT s -> v_inbox s <> [] -> ss_offset (v_segs s) = off0.
+Proof.
+  intros s (_ & Tb & Ib) N. pose proof (Tab_ge _ _ Tb).
+  destruct (Z.ltb_spec off0 (ss_offset (v_segs s))) as [L|L]; [|lia]. specialize (Ib L). congruence.
+Qed.
+
+(* incoming messages: only while nothing new has been segmented *)
+Lemma CoreT_pimrel : forall a b, pimrel a b -> ss_offset (v_segs a) = off0 -> CoreT a -> CoreT b.
+Proof.
+  intros a b (_ & Mb & T & _) O (M & Tb & _). pose proof T as (n & _ & O' & _).
+  split; [lia|]. split; [eapply Tab_trm; eauto|]. intro L. lia.
+Qed.
+
+Lemma CoreT_pim : forall s, CoreT s -> stA CoreT (process_all_incoming_messages cci s).
+Proof.
+  intros s H. destruct (v_inbox s) as [|m rest] eqn:Ei.
+  - eapply (stR_inv kfl); [apply CoreT_kfl | apply process_all_incoming_messages_idle; exact Ei | exact H].
+  - assert (O : ss_offset (v_segs s) = off0) by (apply CoreT_offset; [exact H | congruence]).
+    pose proof (process_all_incoming_messages_pimrel cci s) as R.
+    destruct (process_all_incoming_messages cci s); cbn [stR stA] in *; try exact I;
+      eapply CoreT_pimrel; eauto.
+Qed.
+
+Lemma pre2_Tab : forall t ss t2 ss2, pre2 t ss t2 ss2 -> Tab off0 t ->
+  Tab off0 t2 /\ ss_offset t2 <= ss_offset t.
+Proof.
+  intros t ss t2 ss2 (_ & [[-> _]|P]) H; [split; [exact H|lia]|].
+  split; [apply (Tab_tpop off0 _ _ P H)|]. pose proof (tpop_offset_lt off0 _ _ P H). lia.
+Qed.
+
+Lemma CoreT_split : forall s, CoreT s -> Bx s -> stA CoreT (split_tx_queue_into_segments cci s).
+Proof.
+  intros s (M & Tb & Ib) B. pose proof (split_spec cci s) as Sp.
+  destruct (split_tx_queue_into_segments cci s) as [s' u|s' e|]; cbn [stA]; [| |exact I].
+  - destruct Sp as ((_ & I & _) & [(E1 & E2 & _)|[(E1 & E2 & _)|(t2 & ss2 & P & _ & Fin & _ & L)]]).
+    + unfold CoreT. rewrite E1, E2, I. auto.
+    + unfold CoreT. rewrite E1, E2, I. auto.
+    + pose proof (segment_loop_mss _ _ _ _ _ _ _ _ _ L) as M1. pose proof P as [M2 _].
+      destruct (pre2_Tab _ _ _ _ P Tb) as [Tb2 _].
+      split; [lia|]. split; [eapply segment_loop_Tab; [exact L | lia | exact Tb2]|].
+      intros _. rewrite I. destruct B as [B|B]; [exact B|congruence].
+  - destruct Sp as ((_ & I & _) & _ & P). pose proof P as [M2 _].
+    destruct (pre2_Tab _ _ _ _ P Tb) as [Tb2 Le].
+    split; [lia|]. split; [exact Tb2|]. intro Lt. rewrite I. apply Ib. lia.
+Qed.
+
+(* ---- CoreW ---- *)
+Lemma CoreW_keep : forall a b, keep a b -> CoreW a -> CoreW b.
+Proof. intros a b ((W & _ & O & _) & E1 & E2) H. unfold CoreW. rewrite E1, E2, W, O. exact H. Qed.
+
+Lemma CoreW_kfl : forall a b, kfl a b -> CoreW a -> CoreW b.
+Proof.
+  intros a b ((W & _ & O & _) & E1 & T) (M & N & Wk). destruct T as (F & _ & _).
+  unfold CoreW. rewrite E1, O, W. split; [exact M|]. split; [exact N|].
+  rewrite (F2_walk off0 m0 _ _ _ false (F2_impl _ _ seg_eq_le _ _ F)). exact Wk.
+Qed.
+
+Lemma CoreW_stx : forall a b, stx a b -> CoreW a -> CoreW b.
+Proof.
+  intros a b H. induction H as [s|a b c _ IH1 _ IH2|s s' K R|s s' K M R P]; auto.
+  - apply CoreW_kfl; exact K.
+  - intros (M0 & N & Wk). destruct K as (W & _ & O & _). destruct P as (g & S & _).
+    unfold CoreW. rewrite O, W. split; [lia|]. split; [exact N|].
+    rewrite S in Wk. eapply walk_prefix; eauto.
+Qed.
+
+Lemma Core1_pim : forall s, Core1 s -> stA Core1 (process_all_incoming_messages cci s).
+Proof.
+  intros s [HT HW]. destruct (v_inbox s) as [|m rest] eqn:Ei.
+  - eapply (stR_inv kfl); [| apply process_all_incoming_messages_idle; exact Ei | split; [exact HT|exact HW]].
+    intros a b K [X Y]. split; [eapply CoreT_kfl | eapply CoreW_kfl]; eauto.
+  - assert (O : ss_offset (v_segs s) = off0) by (apply CoreT_offset; [exact HT | congruence]).
+    pose proof (process_all_incoming_messages_pimrel cci s) as R.
+    assert (G : forall b, pimrel s b -> Core1 b).
+    { intros b Rb. pose proof (CoreT_pimrel _ _ Rb O HT) as HT'. split; [exact HT'|].
+      destruct Rb as (Ob & Mb & (n & _ & O' & _) & _). destruct HW as (M0 & N & _).
+      unfold CoreW. rewrite Ob. split; [lia|]. split; [exact N|].
+      apply Tab_walk_old; [lia | exact (proj1 (proj2 HT'))]. }
+    destruct (process_all_incoming_messages cci s); cbn [stR stA] in *; auto.
+Qed.
+
+Lemma Core1_split : forall s, Core1 s -> Bx s -> stA Core1 (split_tx_queue_into_segments cci s).
+Proof.
+  intros s [HT HW] B. pose proof (CoreT_split s HT B) as HT'.
+  pose proof (split_spec cci s) as Sp. destruct HW as (M0 & N & Wk). destruct HT as (M & Tb & _).
+  destruct (split_tx_queue_into_segments cci s) as [s' u|s' e|]; cbn [stA] in *; [| |exact I].
+  - split; [exact HT'|].
+    destruct Sp as ((W & _ & O & _) & [(E1 & E2 & _)|[(E1 & E2 & _)|(t2 & ss2 & P & _ & _ & _ & L)]]).
+    + unfold CoreW. rewrite E1, E2, W, O. auto.
+    + unfold CoreW. rewrite E1, E2, W, O. auto.
+    + pose proof (segment_loop_mss _ _ _ _ _ _ _ _ _ L) as M1. pose proof P as [M2 P'].
+      destruct (pre2_Tab _ _ _ _ P Tb) as [Tb2 _]. pose proof (Tab_ge _ _ Tb2) as Ge.
+      unfold CoreW. rewrite O, W. split; [lia|]. split; [exact N|].
+      rewrite N in L. eapply segment_loop_walk; [exact L | lia | exact Ge |].
+      destruct P' as [[-> _]|(g & S & _)]; [exact Wk|]. rewrite S in Wk. eapply walk_prefix; eauto.
+  - split; [exact HT'|]. destruct Sp as ((W & _ & O & _) & _ & P). pose proof P as [M2 P'].
+    unfold CoreW. rewrite O, W. split; [lia|]. split; [exact N|].
+    destruct P' as [[-> _]|(g & S & _)]; [exact Wk|]. rewrite S in Wk. eapply walk_prefix; eauto.
+Qed.
+
+Theorem Core1_poll : forall s s' r, Core1 (poll_init s) -> poll cci s = (s', r) -> Core1 s'.
+Proof.
+  intros s s' r H E.
+  apply (poll_inv_gen Core1) with (s := s) (r := r); try assumption.
+  - intros a b K [X Y]. split; [eapply CoreT_keep | eapply CoreW_keep]; eauto.
+  - intros a b K [X Y]. split; [eapply CoreT_stx | eapply CoreW_stx]; eauto.
+  - apply Core1_pim.
+  - apply Core1_split.
+Qed.
+
+End Core.
+
+(* the poll-local invariant holds at the start of a poll *)
+Lemma lastok_fp : forall s : vsock, c18_no_probe_last (fp_of_vsock cci s) = true -> lastok (ss_segs (v_segs s)).
+Proof.
+  intros s H. unfold c18_no_probe_last in H. cbn [fp_of_vsock f_segs] in H. unfold lastok.
+  rewrite <- map_rev in H. destruct (rev (ss_segs (v_segs s))) as [|g r]; [exact I|].
+  cbn [map fseg_of fg_probe fg_delivered] in H. unfold upr. destruct (sg_probe g && negb (sg_delivered g)); [discriminate|reflexivity].
+Qed.
+
+Lemma CoreT_init : forall (s : vsock) sc, TI s -> lastok (ss_segs (v_segs s)) ->
+  CoreT (ss_offset (v_segs s)) (poll_init (VSockRec.set_sends s sc)).
+Proof.
+  intros s sc [M H] L. unfold CoreT, poll_init. cbn [v_ss v_segs v_inbox set_arm_in set_wakes set_out VSockRec.set_sends].
+  split; [exact M|]. split; [apply Tab_init; assumption|]. intro C. lia.
+Qed.
+
+(* ---- c18_nagle_ok ---- *)
+Theorem c18_nagle_ok_step : forall cfg (s : vsock) o,
+  TI s -> (vc_nagle cfg = true -> o_nagle (v_opts s) = true) ->
+  c18_nagle_ok cfg (fstep_of cci s o) = true.
+Proof.
+  intros cfg s o HT HN. unfold c18_nagle_ok, c18_is_poll. rewrite fstep_of_event.
+  destruct o; cbn [fevent_of]; try reflexivity.
+  destruct (poll cci (VSockRec.set_sends s script)) as [s' r] eqn:E.
+  rewrite (fstep_of_poll cci s script s' r E). cbn [fs_pre fs_post].
+  unfold c18_nagle_fp.
+  destruct (vc_nagle cfg) eqn:Ng; [|reflexivity]. specialize (HN eq_refl).
+  destruct (c18_pre _); [|reflexivity].
+  destruct (c18_no_probe_last (fp_of_vsock cci s)) eqn:NP; [|reflexivity]. cbn [andb].
+  apply lastok_fp in NP.
+  assert (C0 : Core1 (ss_offset (v_segs s)) (mss (v_ss s)) (poll_init (VSockRec.set_sends s script))).
+  { split; [apply CoreT_init; assumption|].
+    unfold CoreW, poll_init. cbn [v_ss v_segs v_opts v_last_remote_window set_arm_in set_wakes set_out VSockRec.set_sends].
+    split; [lia|]. split; [exact HN|].
+    apply Tab_walk_old; [reflexivity|]. apply Tab_init; [exact (proj2 HT) | exact NP]. }
+  pose proof (Core1_poll _ _ _ _ _ C0 E) as [_ (_ & _ & Wk)].
+  cbn [fp_of_vsock f_seg_offset f_mss f_last_remote_window f_segs]. exact Wk.
+Qed.
+
+Definition NG (c : vconfig) (s : vsock) : Prop := o_nagle (v_opts s) = vc_nagle c.
+
+Lemma NG_vstep : forall c (s : vsock) o, NG c s -> NG c (vstep_state cci s o).
+Proof. intros c s o H. unfold NG in *. destruct (vstep_keeps cci s o) as (K & _). rewrite K. exact H. Qed.
+
+Lemma NG_vsock_new : forall mk c (s : vsock), vsock_new cci mk c = Some s -> NG c s.
+Proof.
+  intros mk c s H. unfold vsock_new in H.
+  destruct (match (if vc_incoming c then None else _) with Some r => _ | None => _ end); [|discriminate].
+  inversion H; subst. reflexivity.
+Qed.
+
+Theorem c18_nagle_ok_trace : forall mk c (s0 : vsock) ops,
+  vsock_new cci mk c = Some s0 -> forallb (c18_nagle_ok c) (ftrace cci s0 ops) = true.
+Proof.
+  intros mk c s0 ops H.
+  apply (ftrace_forallb cci (fun s => TI s /\ NG c s)).
+  - intros s o [H1 H2]. apply c18_nagle_ok_step; [exact H1|]. intro N. rewrite H2. exact N.
+  - intros s o [H1 H2]. split; [apply TI_vstep; exact H1 | apply NG_vstep; exact H2].
+  - split; [eapply TI_vsock_new; eauto | eapply NG_vsock_new; eauto].
+Qed.
+
+(* the guard c18_pre holds before and after every event *)
+Theorem c18_pre_ok_step : forall cfg (s : vsock) o, TI s -> c18_pre_ok cfg (fstep_of cci s o) = true.
+Proof.
+  intros cfg s o H. unfold c18_pre_ok. rewrite fstep_of_pre, fstep_of_post.
+  rewrite (TI_c18_pre s H), (TI_c18_pre _ (TI_vstep s o H)). reflexivity.
+Qed.
+
+Theorem c18_pre_ok_trace : forall cfg mk c (s0 : vsock) ops,
+  vsock_new cci mk c = Some s0 -> forallb (c18_pre_ok cfg) (ftrace cci s0 ops) = true.
+Proof.
+  intros cfg mk c s0 ops H.
+  apply (ftrace_forallb cci TI); [apply c18_pre_ok_step | apply TI_vstep | eapply TI_vsock_new; eauto].
+Qed.
+
+Theorem c18_pre_monitor_trace : forall cfg mk c (s0 : vsock) ops,
+  vsock_new cci mk c = Some s0 -> forallb (c18_pre_monitor cfg) (ftrace cci s0 ops) = true.
+Proof.
+  intros cfg mk c s0 ops H.
+  apply (ftrace_forallb cci TI); [| apply TI_vstep | eapply TI_vsock_new; eauto].
+  intros s o T. unfold c18_pre_monitor. rewrite fstep_of_post. apply TI_c18_pre, TI_vstep, T.
+Qed.
+
 End WithCC.
